@@ -3,9 +3,10 @@ proof: coq/Props/C03.v over the client LTS coq/Client/Model.v (all event lists);
 tie: scripts run on the real Client (harness/llrp/client_script_test.go) and on the extracted
 model (oracle/client), projected observables compared, and the property itself evaluated on what
 Go was observed to do (who received which payload; ids on the wire)."""
-import json, random
+import json, os, random
 import vlib
 import client_common as cc
+import client_walk as cw
 
 PID = "C03"
 REQ_TYPES = [1, 2, 3, 20, 21, 22, 23, 24, 25, 26, 40, 41, 42, 43, 44, 45, 60, 64, 1023]
@@ -359,6 +360,71 @@ def wfail_script(rnd, sid, mode=None):
     return sc
 
 
+def across_shutdown_script(rnd, sid):
+    """requests are outstanding ACROSS a Shutdown (or a caller's own CloseConnection): A's request is on the wire and unanswered
+    when B's CloseConnection goes out; the reader answers A — before it answers the CloseConnection, or after refusing it, or
+    (accepted) just before. As long as the client is not closed A's caller must get exactly its reply. Compared with the
+    model and judged by pred_c03 (delivery is demanded up to the frame that answers the CloseConnection acceptably)."""
+    version = rnd.choice([1, 1, 2])
+    b = cc.SB(sid, version=version, default_handler=rnd.choice([None, None, dict(mode="all", k=0)]))
+    b.connect(cur=rnd.choice([1, 2]), mx=2)
+    tag = rnd.randrange(1, 1 << 20) * 64
+    types = list(REQ_TYPES)
+    rnd.shuffle(types)
+    n_out = rnd.randrange(1, 4)
+    for c in range(1, n_out + 1):
+        b.send(c, types[c], rnd.choice([0, 3, 40]), tag + c)
+    closer = n_out + 1
+    if rnd.random() < 0.7:
+        b.op("shutdown", caller=closer)
+        b.reqs[closer] = dict(typ=cc.T_CLOSE, len=0, tag=0, api="Shutdown")
+        b.req_index[closer] = b.nseen
+        b.expect()
+    else:
+        b.send(closer, cc.T_CLOSE, 0, 0)
+    outs = list(range(1, n_out + 1))
+    rnd.shuffle(outs)
+    how = rnd.choice(["before", "before", "refused-then", "mixed"])
+    first = outs[:1] if how != "refused-then" else []
+    for c in first:                                  # answered while the CloseConnection is still unanswered
+        b.reply_to(c, resp_type(b.reqs[c]["typ"]), rnd.choice([0, 7, 120]), tag + 100 + c)
+        b.wait(c)
+    if rnd.random() < 0.3:
+        b.peer(rnd.choice(cc.UNSOLICITED), rnd.randrange(1 << 32), rnd.choice([0, 9]), tag + 90)
+    refused = how in ("refused-then", "mixed") or rnd.random() < 0.5
+    b.reply(b.req_index[closer], cc.T_CLOSER if rnd.random() < 0.8 else cc.T_ERR,
+            pl=dict(k="status", code=rnd.choice([100, 101, 401]) if refused else 0))
+    b.wait(closer)
+    for c in outs:
+        if c in first:
+            continue
+        b.reply_to(c, resp_type(b.reqs[c]["typ"]), rnd.choice([0, 7, 120]), tag + 200 + c)   # delivered iff the connection stayed open
+        b.wait(c)
+    b.op("drain")
+    b.op("state")
+    sc = b.script()
+    sc["family"] = "across-shutdown"
+    return sc
+
+
+def atlimit_script(rnd, sid, n):
+    """a reply of exactly / one less / one more than the buffering limit (640 KiB), other callers around it: the caller
+    gets the same bytes or an error, never a success with other bytes"""
+    b = cc.SB(sid, version=rnd.choice([1, 2]))
+    b.connect()
+    tag = rnd.randrange(1, 1 << 20) * 64
+    b.send(1, rnd.choice(REQ_TYPES), 9, tag + 1)
+    b.send(2, rnd.choice(REQ_TYPES), 5, tag + 2)
+    b.reply_to(1, 1023, n, tag + 3)
+    b.wait(1)
+    b.reply_to(2, 1023, 17, tag + 4)
+    b.wait(2).wait(1)
+    b.op("drain")
+    sc = b.script()
+    sc["family"] = "oversize"
+    return sc
+
+
 def witness_script():
     """the hand-confirmed defect: request outstanding, KeepAlive with the same id"""
     b = cc.SB("c03-witness", version=1)
@@ -389,18 +455,26 @@ def run(tier, seed, replay=None):
         res.violation("build", err, dict(kind="build"), False)
         return res.finish()
     thorough = tier == "thorough"
+    walks_only = os.environ.get("VERIF_WALKS_ONLY") == "1"     # debug switch: the hand-written families are skipped
     rp_data = {}
     pred_only = []
+    walk_scripts = []
     if replay:
         rp_data = json.load(open(replay))
         scripts = [rp_data["script"]] if "script" in rp_data else []
         if scripts and scripts[0].get("family") in ("cutreply", "splitnext", "wfail"):
             pred_only, scripts = scripts, []
+        elif scripts and scripts[0].get("family") == "walk":
+            walk_scripts, scripts = scripts, []
+    elif walks_only:
+        scripts = []
     else:
         rx = random.Random(seed + 3)
         scripts = ([witness_script()] + gen_scripts(seed, 4000 if thorough else 400, thorough)
                    + [nowait_script(rx, "c03-nowait-%d" % i) for i in range(200 if thorough else 40)]
-                   + [oversize_script(rx, "c03-oversize-%d" % i) for i in range(6 if thorough else 1)])
+                   + [oversize_script(rx, "c03-oversize-%d" % i) for i in range(6 if thorough else 1)]
+                   + [atlimit_script(rx, "c03-atlimit-%d" % n, n) for n in (655359, 655360, 655361)]
+                   + [across_shutdown_script(rx, "c03-across-shutdown-%d" % i) for i in range(200 if thorough else 32)])
         rb = random.Random(seed + 41)
         scripts += [cc.coalesced_script(rb, "c03-coalesced-%d" % i, "replies") for i in range(300 if thorough else 48)]
         pred_only = ([cutreply_script(rx, "c03-cutreply-%d" % i) for i in range(120 if thorough else 24)]
@@ -473,6 +547,21 @@ def run(tier, seed, replay=None):
                 res.violation(sig, "%s [script %s]" % (text, s["id"]), dict(kind="script", script=s, observed=g,
                                                                            theorem="C03_result_is_delivery"))
 
+    # model-based random walks (checks/client_walk.py): not a family — any operation the runner supports, wherever the model says
+    # it is executable deterministically
+    walk_ev = None
+    if not replay:
+        walk_scripts, wstats, wcalls = cw.walks(seed + 101, 6000 if thorough else 400, cw.WEIGHTS[PID], prefix="c03-walk")
+        walk_ev = cw.evidence(wstats, walk_scripts, wcalls)
+    if walk_scripts:
+        winfo = cw.run_walks(res, PID, exe, walk_scripts, ["c03"], reported=reported)
+        evals += winfo.get("evals", 0)
+        dist["walk"] = len(walk_scripts)
+        for s_ in walk_scripts:
+            nontriv.add((s_["id"], len(s_["steps"])))
+        if walk_ev is not None:
+            walk_ev.update(disagreeing=winfo.get("disagreeing"), failing_predicate=winfo.get("failing"), model_variant=str(winfo.get("variant")))
+
     # stress: many callers, random reply order, unsolicited frames with random (and colliding) ids
     stress = []
     if replay and "stress" in rp_data:
@@ -484,7 +573,7 @@ def run(tier, seed, replay=None):
                 if sig not in reported:
                     reported.add(sig)
                     res.violation(sig, "%s [stress %s]" % (text, rq.get("id")), dict(kind="stress", stress=rq))
-    if not replay:
+    if not replay and not walks_only:
         rnd = random.Random(seed + 1)
         nst = 12 if thorough else 4
         for i in range(nst):
@@ -514,5 +603,5 @@ def run(tier, seed, replay=None):
              "2 callers; distinct by (script id, #callers, which peer frames are unsolicited, #frames read)",
         samples=samples, input_distribution=dist, traces_validated_against_impl=evals,
         model_variant=dict(filter_unsolicited=variant[0], stamp_always=variant[1], disagreeing=counts),
-        stress_runs=len(stress), trusted_base=res.assumptions)
+        stress_runs=len(stress), walks=walk_ev, trusted_base=res.assumptions)
     return res.finish()
